@@ -131,7 +131,9 @@ def next (st : St) (i : Bytes) : Option Pkt × St :=
   | none => (none, { st with peek := none })
   | some n =>
     let v := verify n i
-    if q = [] ∧ v.2 then (some v.1, { q := [], peek := none, last := 0 })
+    -- a re-key packet (ID 0 with the Crypt flag) is always sent on its own
+    if (q = [] ∨ (n.id = 0 ∧ hasFlag n.flags Facts.flagCrypt)) ∧ v.2 then
+      (some v.1, { q := q, peek := none, last := 0 })
     else
       let t := n.tags
       if st.last > 0 then
